@@ -15,18 +15,23 @@ PROP = 'C14'
 
 DECLS = {
     'arithmetic': ['(declare-const a Int)', '(declare-fun a2 () Real)',
-                   '(define-fun a3 () Int 1)', '(define-sort A4 () Int)'],
+                   '(define-fun a3 () Int 1)', '(define-sort A4 () Int)',
+                   '(declare-const a5 (Array Bool Int))'],
     'bv': ['(declare-const b (_ BitVec 8))',
            '(declare-fun b2 () (_ BitVec 1))',
            '(define-fun b3 () (_ BitVec 2) #b00)',
-           '(define-sort B4 () (_ BitVec 4))'],
+           '(define-sort B4 () (_ BitVec 4))',
+           '(declare-const b5 (Array (_ BitVec 4) (_ BitVec 4)))',
+           '(declare-fun b6 (Bool) (Array Bool (_ BitVec 2)))'],
     'datatypes': ['(declare-datatype D ((c)))',
                   '(declare-datatypes ((E 0)) (((e))))'],
     'fp': ['(declare-const f Float32)', '(declare-fun f2 () RoundingMode)',
            '(define-fun f3 () (_ FloatingPoint 5 11) f)',
-           '(declare-const f4 (_ FloatingPoint 8 24))'],
+           '(declare-const f4 (_ FloatingPoint 8 24))',
+           '(declare-const f5 (Array Bool Float16))'],
     'strings': ['(declare-const s String)', '(declare-fun s2 () (Seq Bool))',
-                '(define-fun s3 () String "")'],
+                '(define-fun s3 () String "")',
+                '(declare-const s4 (Array Bool String))'],
 }
 DETECTABLE = list(DECLS)
 NEUTRAL = '(declare-const p Bool)\n(declare-fun u (U) U)\n(assert p)\n'
@@ -266,9 +271,8 @@ def main(tier):
     letters = alphabet(groups)
     all_inputs = [(m, v) for m in range(32) for v in range(1)]
     # alternative declaration forms (define-fun / declare-fun / define-sort)
-    alt_inputs = [(31, v) for v in (1, 2, 3)] + [(m, v) for m in (1, 2, 4, 8,
-                                                                  16)
-                                                 for v in (1, 2, 3)]
+    alt_inputs = [(31, v) for v in (1, 2, 3, 4, 5)] + [
+        (m, v) for m in (1, 2, 4, 8, 16) for v in (1, 2, 3, 4, 5)]
     # length 2: none, all, every single theory, every all-but-one (detection
     # is decided per group, so each group is seen declared and undeclared
     # next to every other state); thorough uses all 32
